@@ -1007,7 +1007,7 @@ func (f *atomic) Gen(r *hx.Run) {
 	id := 0
 	nCases := r.Pick(150, 6000)
 	if f.reps > 1 {
-		nCases = r.Pick(60, 1500)
+		nCases = r.Pick(60, 500)
 	}
 	for c := 0; c < nCases; c++ {
 		id++
@@ -1098,7 +1098,7 @@ func (f *atomic) genNative(r *hx.Run, id *int) {
 	for _, s := range catalogue() {
 		ids = append(ids, strings.Replace(s.id, " ", "/", 1))
 	}
-	n := r.Pick(6, 150)
+	n := r.Pick(6, 50)
 	for c := 0; c < n; c++ {
 		*id++
 		r.Case(fmt.Sprintf("native-%d", *id))
